@@ -203,4 +203,20 @@ def k1(ctx, kr):
                       'HashMap with symbolic keys modelled as association list with lookups forking on key equality (the key type\'s own PartialEq is interpreted)']
     kr.outside = ['graphs with more nodes; units mixing aliases with the other kinds; arrays/subranges/enumeration aliases']
 
-KERNELS = [k1]
+# ---------------------------------------------------------------------------------------------- K2 acyclic alias chains used several times are not reported as recursive
+@kernel('K2 analyze.alias_chains_not_recursive')
+def k2(ctx, kr):
+    """parse + full analysis of units with an enumeration, an alias of it and an alias of the alias, used by two or three variables (C02-K5 template `enum_alias_used_twice`):
+    no recursion code (P0010, P0013) for any of the 18 shapes"""
+    from . import C02 as K02, tplcommon as TP
+    from .c02_templates import VERDICT_TEMPLATES as VT
+    K02._CTX = ctx
+    for part in par_map(K02._k5_job, TP.jobs_for(VT, ['enum_alias_used_twice'])):
+        part.findings = [dict(f, role=f['role'].replace('C02/K5/', 'C07/K2/')) for f in part.findings if any(c in f['what'] for c in ('P0010', 'P0013'))]
+        merge_part(kr, part)
+    P = ctx.program()
+    kr.functions = fn_paths(P, getattr(kr, '_enc', set()))[:120]
+    kr.bounds = 'enumeration e, alias f of e, alias g of f; two variables of symbolic type in {e, f, g} in one function block, optionally a third in a second function block: analysis reports no recursion'
+    kr.exhaustive = True
+
+KERNELS = [k1, k2]
